@@ -197,7 +197,7 @@ Theorem compiled_run_no_abort : forall (M : module) (o : options) (B : compiled)
   (N.of_nat (length (p_bytecode B)) < 2147483648)%N -> (N.of_nat (length (p_data B)) < 4294967296)%N ->
   exists is, decode (p_bytecode B) = Some is /\
     forall F bld budget s,
-      C04VmProofs6.reenter_ok (to_vm B) (Vm.run_at F bld (to_vm B) false (N.of_nat budget) 129) (wf_start is) ->
+      C04VmProofs6.reenter_ok (to_vm B) (Vm.run_at F bld (to_vm B) false (N.of_nat budget) 129) (wf_start is) (fun _ => False) ->
       C04VmProofs4.vm_inv0 (to_vm B) (wf_start is) s ->
       (forall s1, Vm.push_frame s (Vm.mkFrame 0 0 0 None) = Some s1 ->
          C04VmProofs7.sides_hold F bld (to_vm B) (Vm.run_at F bld (to_vm B) false (N.of_nat budget) 129) 0
